@@ -176,11 +176,10 @@ theorem ranks_bounded (rank : Nat → Nat) (s : Sys) : ∃ B, ∀ t ∈ s, rank 
       omega
 
 /-- **Progress**: if every program obeys the discipline (no re-acquisition of a held lock, acquisitions in strictly
-increasing rank, balanced releases) for an injective-on-used-locks rank, then no reachable state of any number of
+increasing rank, balanced releases) then no reachable state of any number of
 threads is stuck: as long as some thread is unfinished, some thread can take a step. -/
-theorem disciplined_never_stuck (rank : Nat → Nat) (hinj : ∀ a b, rank a = rank b → a = b) (ps : List Prog)
+theorem disciplined_never_stuck (rank : Nat → Nat) (ps : List Prog)
     (hd : ∀ p ∈ ps, Disciplined rank p) (s : Sys) (hr : Reach (initSys ps) s) : ¬ Stuck s := by
-  have _ := hinj -- injectivity of `rank` is not needed: the argument only compares ranks
   intro ⟨⟨t0, ht0, hunf0⟩, hst⟩
   have hinv := inv_reach rank ps hd s hr
   have climb : ∀ k : Nat, ∃ t ∈ s, finished t = false ∧ k ≤ rank (blk t) := by
